@@ -760,6 +760,10 @@ def recover(ctx, facts, f):
         frc = [x for x in c.calls(r"std::deque<.*>::(emplace_front|push_front)") if is_this_field(call_obj(x), "_created_files")]
         ok = ok and all(len(x["args"]) == 3 and any(x2["k"] == "MemberExpr" and x2.get("mname") == "_filename" for x2 in walk(x["args"][0])) and
                         const_val(x["args"][1]) == 0 for x in frc)
+        # ... for every sink that writes a real file: only the 'this is the null sink' outcome may skip the size read
+        nul_e = [(b, t) for (b, t, cc) in branches_on_call(c, r"StreamSink::is_null$")]
+        thr_c = [q for x in c.walk() if x["k"] == "CXXThrowExpr" for q in cg.positions(x)]
+        ok = ok and bool(sz) and not cg.exists_path([cg.entry_node], [cg.exit_node], avoid_nodes=sz + thr_c, avoid_edges=nul_e)
         ctx.ob("C14.R5d", "RotatingSink<%s>::ctor:recover-open-register" % inst(f), ok and bool(sz),
                "start-up recovers the existing files, then opens the base file in the configured mode, registers it as newest — under its "
                "own name with index 0, the name it is later renamed from — and takes its current size (an appended-to file counts "
